@@ -241,24 +241,24 @@ impl World {
                     .open(dir.join(name))
                     .unwrap();
             }
+            // out-of-band damage may target a file that is not there (any more): no effect,
+            // exactly as Driver.apply_event in the model
             Event::SetLen(name, len) => {
-                let file = std::fs::OpenOptions::new()
-                    .write(true)
-                    .open(dir.join(name))
-                    .unwrap();
-                file.set_len(*len).unwrap();
+                if let Ok(file) = std::fs::OpenOptions::new().write(true).open(dir.join(name)) {
+                    file.set_len(*len).unwrap();
+                }
             }
             Event::Write(name, off, bytes) => {
                 let n = k.unwrap_or(bytes.len()).min(bytes.len());
                 if n > 0 {
-                    let file = std::fs::OpenOptions::new()
-                        .write(true)
-                        .open(dir.join(name))
-                        .unwrap();
-                    file.write_all_at(&bytes[..n], *off).unwrap();
+                    if let Ok(file) = std::fs::OpenOptions::new().write(true).open(dir.join(name)) {
+                        file.write_all_at(&bytes[..n], *off).unwrap();
+                    }
                 }
             }
-            Event::Unlink(name) => std::fs::remove_file(dir.join(name)).unwrap(),
+            Event::Unlink(name) => {
+                let _ = std::fs::remove_file(dir.join(name));
+            }
             _ => {}
         }
     }
@@ -311,7 +311,18 @@ impl World {
         self.events.push(ev);
     }
 
+    /// Read accessors (list_queues, summary, last_position, range, last_record, resource_usage)
+    /// under catch_unwind: a panic in one of them is reported, not fatal (property C10).
     fn print_state(&mut self) {
+        let res = catch_unwind(AssertUnwindSafe(|| self.print_state_inner()));
+        if res.is_err() {
+            outln!("acc err=Panic");
+            self.forget_log();
+            self.print_ls();
+        }
+    }
+
+    fn print_state_inner(&mut self) {
         if let Some(log) = self.log.as_ref() {
             let mut names: Vec<String> = log.list_queues().map(|q| q.to_string()).collect();
             names.sort_by(|a, b| a.as_bytes().cmp(b.as_bytes()));
@@ -320,7 +331,7 @@ impl World {
                 let qs = summary.queues.get(name).expect("summary lists the queue");
                 let last = log.last_position(name).expect("queue exists");
                 let next = match last {
-                    Some(p) => p + 1,
+                    Some(p) => p.wrapping_add(1),
                     None => 0,
                 };
                 // summary.end must agree with last_position
@@ -651,7 +662,7 @@ impl World {
                 let src: u64 = toks[1].parse().unwrap();
                 let dst: u64 = toks[2].parse().unwrap();
                 self.forget_log();
-                let content = std::fs::read(self.dir.join(wal_name(src))).unwrap();
+                let content = std::fs::read(self.dir.join(wal_name(src))).unwrap_or_default();
                 if self.dir.join(wal_name(dst)).exists() {
                     self.oob(Event::Unlink(wal_name(dst)));
                 }
@@ -840,7 +851,9 @@ fn main() {
         .ok()
         .and_then(|s| s.parse().ok())
         .unwrap_or(20_000);
-    std::panic::set_hook(Box::new(|_| {}));
+    if std::env::var("MRL_SHOW_PANIC").is_err() {
+        std::panic::set_hook(Box::new(|_| {}));
+    }
     let start = Instant::now();
     std::thread::spawn(move || watchdog(start, deadline_ms));
 
